@@ -444,6 +444,14 @@ func (r *Run) finish(writeEv bool) int {
 	return 0
 }
 
+// OpTimeout is the per-operation watchdog (default 60 s; VERIF_OP_TIMEOUT_S overrides it for self-validation runs).
+func OpTimeout() time.Duration {
+	if n := envInt("VERIF_OP_TIMEOUT_S", 0); n > 0 {
+		return time.Duration(n) * time.Second
+	}
+	return 60 * time.Second
+}
+
 func envOr(k, d string) string {
 	if v := os.Getenv(k); v != "" {
 		return v
